@@ -25,3 +25,69 @@ C04_REG_EQ (Shear6<float>, "Shear6_float");
 C04_REG_EQ (Shear6<double>, "Shear6_double");
 C04_REG_EQ (Quat<float>, "Quat_float");
 C04_REG_EQ (Quat<double>, "Quat_double");
+
+// ---- scalar on the left with a scalar type S different from the element type T (template <class S, class T>
+// operator* (S, const Color4<T>&) and operator* (S, const Shear6<T>&)): every slot is T (s * slot), the product formed in
+// the common type of S and T.  Added after seeded change C04-6 (forwarding to v * T (s) converts the scalar first).
+namespace
+{
+template <class S, class V> void run_mixed_left (mon::Ctx& c, uint64_t idx)
+{
+    using namespace c04;
+    typedef typename Tr<V>::E T;
+    constexpr int N = Tr<V>::N;
+    mon::Rng      r = c.rng (idx);
+    T             a[N];
+    S             s;
+    const char*   cls;
+    static const double fr[] = {0.5, 1.5, 0.25, 2.5, 1.0 / 3, 0.1, 0.75, 1.25, 2.0, 0.9};
+    if (std::is_integral<T>::value)
+    {
+        // products stay inside [0, 250]: the conversion to T is defined
+        for (int i = 0; i < N; ++i) a[i] = (T) r.range (0, 100);
+        if (std::is_integral<S>::value) { s = (S) r.range (0, 2); cls = "integer_scalar_integer_slots"; }
+        else { s = (S) fr[r.range (0, 9)]; cls = "fractional_scalar_integer_slots"; }
+    }
+    else if (std::is_integral<S>::value)
+    {
+        for (int i = 0; i < N; ++i) a[i] = (T) (float) (r.range (-2000, 2000) / 16.0);
+        s   = (S) r.range (-30, 30);
+        cls = "integer_scalar_float_slots";
+    }
+    else
+    {
+        // a scalar that is not representable in T: converting it first rounds twice
+        for (int i = 0; i < N; ++i) a[i] = (T) (float) (r.range (-2000, 2000) / 16.0);
+        s   = (S) (fr[r.range (0, 9)] * (r.coin () ? 1 : -1) * (1 + r.uniform () / 8));
+        cls = "wider_scalar_float_slots";
+    }
+    c.cls (cls);
+    c.nontrivial (hash_combine (hash_vals (7, a, N), (uint64_t) (int64_t) (double (s) * 1048576.0)));
+    const V va  = make<V> (a);
+    const V got = s * va;
+    c.eval ();
+    for (int i = 0; i < N; ++i)
+    {
+        const T want = T (s * a[i]);
+        const T g    = Tr<V>::at (got, i);
+        if (!same (g, want))
+            c.fail (std::string ("operator*(S,V).") + Tr<V>::name () + ":" + cls, idx, [&] {
+                return Obj ().kv ("class", cls).raw ("a", sarr (a, N)).kv ("s", std::to_string ((double) s)).kv ("slot", i).kv ("got", sval (g)).kv ("want", sval (want)).str ();
+            });
+        if (!same (Tr<V>::at (va, i), a[i])) c.fail (std::string ("operator*(S,V).") + Tr<V>::name () + ":operand_modified", idx, [&] { return Obj ().kv ("slot", i).str (); });
+    }
+}
+} // namespace
+#define C04_REG_MIXED(S, V, tag, klass)                                                                              \
+    MON_SUB_IDX ((run_mixed_left<S, V>), "mixed_scalar_left_" tag, 20000, 2000000)                                     \
+        .req ({klass})                                                                                               \
+        .over ("S * V with a scalar type S different from the element type: every slot equals T (s * slot), product formed in the common type")
+C04_REG_MIXED (double, Color4<uchar>, "double_Color4_uchar", "fractional_scalar_integer_slots");
+C04_REG_MIXED (float, Color4<uchar>, "float_Color4_uchar", "fractional_scalar_integer_slots");
+C04_REG_MIXED (int, Color4<uchar>, "int_Color4_uchar", "integer_scalar_integer_slots");
+C04_REG_MIXED (double, Color4<float>, "double_Color4_float", "wider_scalar_float_slots");
+C04_REG_MIXED (float, Color4<half>, "float_Color4_half", "wider_scalar_float_slots");
+C04_REG_MIXED (int, Color4<float>, "int_Color4_float", "integer_scalar_float_slots");
+C04_REG_MIXED (double, Shear6<float>, "double_Shear6_float", "wider_scalar_float_slots");
+C04_REG_MIXED (int, Shear6<double>, "int_Shear6_double", "integer_scalar_float_slots");
+C04_REG_MIXED (float, Shear6<double>, "float_Shear6_double", "wider_scalar_float_slots");
